@@ -302,6 +302,8 @@ theorem columnOps_kinds {o : WOpts} {refSeq segSeq : List Nat} {t : PTrace} {os 
     have h1 := mapE_ok_forall₂ _ _ _ hops
     split at h
     · cases h
+    split at h
+    · cases h
     · split at h
       · cases h
       · next hany =>
@@ -431,6 +433,62 @@ theorem kinds_shift (d : Nat) {t : PTrace} {os : List Op} (h : All₂ (fun c o =
     obtain ⟨x, y⟩ := c
     cases x <;> cases y <;> exact hk
 
+theorem columnOps_contig {o : WOpts} {refSeq segSeq : List Nat} {t : PTrace} {os : List Op}
+    (h : columnOps o refSeq segSeq t = .ok os) : contigB t = true := by
+  unfold columnOps at h
+  split at h
+  · cases h
+  · split at h
+    · cases h
+    · next hc => simpa using hc
+
+theorem follows_of_consec : ∀ (t : PTrace) (rp sp : Nat), (∀ c ∈ t, c ≠ (none, none)) →
+    consecFrom rp (t.filterMap (·.1)) = true → consecFrom sp (t.filterMap (·.2)) = true → Follows rp sp t := by
+  intro t
+  induction t with
+  | nil => intro _ _ _ _ _; trivial
+  | cons c t ih =>
+    intro rp sp hnd hr hs
+    have hnd' : ∀ c ∈ t, c ≠ (none, none) := fun x hx => hnd x (List.mem_cons_of_mem _ hx)
+    have hc := hnd c (List.mem_cons_self ..)
+    obtain ⟨a, b⟩ := c
+    cases a <;> cases b <;> simp only [List.filterMap_cons, consecFrom, Bool.and_eq_true, beq_iff_eq] at hr hs <;>
+      simp only [Follows]
+    · exact absurd rfl hc
+    · exact ⟨hs.1, ih _ _ hnd' hr hs.2⟩
+    · exact ⟨hr.1, ih _ _ hnd' hr.2 hs⟩
+    · exact ⟨hr.1, hs.1, ih _ _ hnd' hr.2 hs.2⟩
+
+theorem consecFrom_head : ∀ (l : List Nat), rowContig l = true → consecFrom (l.headD 0) l = true := by
+  intro l h
+  cases l with
+  | nil => rfl
+  | cons a r => simpa [consecFrom, rowContig] using h
+
+theorem consecFrom_any (l : List Nat) (hl : l = []) (a : Nat) : consecFrom a l = true := by subst hl; rfl
+
+/-- a written trace (no double gap, consecutive positions) follows from its first positions -/
+theorem follows_of_contig (t : PTrace) (hnd : ∀ c ∈ t, c ≠ (none, none)) (hc : contigB t = true) :
+    ∃ rp sp, Follows rp sp t := by
+  simp only [contigB, Bool.and_eq_true] at hc
+  exact ⟨_, _, follows_of_consec t _ _ hnd (consecFrom_head _ hc.1) (consecFrom_head _ hc.2)⟩
+
+theorem columnOps_nodouble {o : WOpts} {refSeq segSeq : List Nat} {t : PTrace} {os : List Op}
+    (h : columnOps o refSeq segSeq t = .ok os) : ∀ c ∈ t, c ≠ (none, none) := by
+  unfold columnOps at h
+  split at h
+  · cases h
+  · next ops hops =>
+    have h1 := mapE_ok_forall₂ _ _ _ hops
+    clear h hops
+    induction h1 with
+    | nil => intro c hc; cases hc
+    | @cons c0 op _ _ hop _ ih =>
+      intro c hc hcc
+      rcases List.mem_cons.mp hc with rfl | hc
+      · subst hcc; simp [colOp] at hop
+      · exact ih c hc hcc
+
 theorem clip_tail (clip : Op) (hc : clip = .S ∨ clip = .H) (b : Nat) :
     ∀ r s, readGo r s (if b = 0 then [] else [(clip, b)]) = .ok [] := by
   intro r s
@@ -438,31 +496,21 @@ theorem clip_tail (clip : Op) (hc : clip = .S ∨ clip = .H) (b : Nat) :
   · rfl
   · rcases hc with rfl | rfl <;> simp [readGo, Op.kind]
 
-/-- the reader undoes the writer on the written (trimmed) trace, for every option combination -/
+/-- the reader undoes the writer on the written (trimmed) trace, for every option combination; no hypothesis on the
+trace: the writer itself refuses double gaps and skipped positions -/
 theorem cigar_roundtrip (o : WOpts) (refSeq segSeq : List Nat) (t : PTrace) (ops : List (Op × Nat))
-    (hf : ∃ rp sp, Follows rp sp t) (hw : writeOps o refSeq segSeq t = .ok (some ops)) :
+    (hw : writeOps o refSeq segSeq t = .ok (some ops)) :
     ∃ t' a, (if o.itg then .ok t else trimSeg t) = .ok t' ∧ firstSeg t' = some a ∧
       readOps ((firstRef t').getD 0) ops = .ok (if o.hc then shiftSeg a t' else t') := by
   unfold writeOps at hw
   split at hw
   · cases hw
   · next t' htrim =>
-    have hf' : ∃ rp sp, Follows rp sp t' := by
-      by_cases hitg : o.itg = true
-      · simp [hitg] at htrim; subst htrim; exact hf
-      · simp [hitg] at htrim
-        unfold trimSeg at htrim
-        split at htrim
-        · cases htrim
-        · next r hr =>
-          simp at htrim; subst htrim
-          obtain ⟨rp, sp, h⟩ := hf
-          obtain ⟨rp', sp', h'⟩ := follows_dropWhile (fun c => c.2.isNone) h
-          exact ⟨rp', sp', follows_dropEndGaps _ _ h'⟩
     split at hw
     · cases hw
     · next os hos =>
       have hk := columnOps_kinds hos
+      have hf' := follows_of_contig t' (columnOps_nodouble hos) (columnOps_contig hos)
       split at hw
       · cases hw
       · split at hw
